@@ -2,6 +2,7 @@ import Driver.Filters
 import Driver.Geom
 import Driver.Eval
 import Driver.Decision
+import Driver.Reduce
 /-
   oxidriver: line protocol over the executable model.
   One request per line: `<op> <arg> ...`; one answer line per request.
@@ -9,7 +10,7 @@ import Driver.Decision
 -/
 namespace Driver
 
-def handlers : List (List String → Option String) := [handleFilters, handleGeom, handleEval, handleDecision]
+def handlers : List (List String → Option String) := [handleFilters, handleGeom, handleEval, handleDecision, handleReduce]
 
 def handle (args : List String) : String :=
   match handlers.findSome? (fun h => h args) with
